@@ -140,7 +140,12 @@ func witnessFor(s *Scenario, i int, q *big.Int) (*concCircuit, bool) {
 	}
 	z := reference(s, x, y, idx, q)
 	if !sat {
-		z = new(big.Int).Mod(new(big.Int).Add(z, big.NewInt(1)), q)
+		if s.Lookup && i%2 == 1 {
+			// rejected inside the lookup instruction itself: index outside the 8-entry table
+			idx = 8 + k
+		} else {
+			z = new(big.Int).Mod(new(big.Int).Add(z, big.NewInt(1)), q)
+		}
 	}
 	return &concCircuit{X: x, Y: y, Idx: idx, Z: z, s: s}, sat
 }
@@ -437,7 +442,7 @@ func childMain(path string) {
 	os.Exit(0)
 }
 
-const childBound = 150 * time.Second
+const childBound = 75 * time.Second
 
 // runChild executes the scenario in a child process. kind: ok | crash | race | wedge | setup.
 func runChild(s Scenario) (out childOut, kind string, detail string) {
@@ -507,13 +512,11 @@ func run(s Scenario, rec *ev.Recorder) ev.Outcome {
 	case "wedge":
 		// a wedge is only reported when it reproduces in 2 of 3 runs (machine load must not fake it)
 		again := 0
-		for i := 0; i < 2; i++ {
-			if _, k, _ := runChild(s); k == "wedge" {
-				again++
-			}
+		if _, k, _ := runChild(s); k == "wedge" {
+			again++
 		}
 		if again >= 1 {
-			return ev.Outcome{Violation: fmt.Sprintf("concurrent calls did not finish within %v in %d of 3 runs (sequentially they take well under a second); goroutine dump:\n%s", childBound, again+1, detail)}
+			return ev.Outcome{Violation: fmt.Sprintf("calls on the shared objects did not finish within %v in 2 of 2 runs (they normally take a few seconds in total); goroutine dump:\n%s", childBound, detail)}
 		}
 		return ev.Outcome{Discard: true, DiscardWhy: "single slow run (did not reproduce)"}
 	}
@@ -586,7 +589,7 @@ func genScenario() *rapid.Generator[Scenario] {
 	})
 }
 
-const rule = "rapid-generated scenarios: one compiled R1CS + sparse system (witness-dependent lookup table, commitment, hints), Groth16 and PLONK keys, proofs and one []solver.Option with spare capacity are SHARED by 2-8 goroutines each running 1-4 drawn calls (Solve / Prove / Verify with distinct satisfying and non-satisfying witnesses, original and restored-from-bytes system), optionally while other circuits are compiled and test-solved in the background; GOMAXPROCS 2/4/16; each scenario repeated (quick 10x, thorough 60x) in a child process. Oracle: every concurrent call returns what the same call returned alone (verdict; solution digest for deterministic systems; proof verifies under its own public witness and no other), a sequential pass afterwards still equals the baseline, the child neither crashes, reports a data race (race build in the thorough tier) nor wedges (2-of-3 reproduction). Non-trivial: >= 2 calls overlapped in time on the shared objects and the system has a stateful instruction, a commitment or the shared option slice. Distinct: SHA-256 of the scenario JSON."
+const rule = "rapid-generated scenarios: one compiled R1CS + sparse system (witness-dependent lookup table, commitment, hints), Groth16 and PLONK keys, proofs and one []solver.Option with spare capacity are SHARED by 2-8 goroutines each running 1-4 drawn calls (Solve / Prove / Verify with distinct satisfying and non-satisfying witnesses, original and restored-from-bytes system), optionally while other circuits are compiled and test-solved in the background; GOMAXPROCS 2/4/16; each scenario repeated (quick 10x, thorough 60x) in a child process. Oracle: every concurrent call returns what the same call returned alone (verdict; solution digest for deterministic systems; proof verifies under its own public witness and no other), a sequential pass afterwards still equals the baseline, the child neither crashes, reports a data race (race build in the thorough tier) nor wedges (reproduced twice). Non-trivial: >= 2 calls overlapped in time on the shared objects and the system has a stateful instruction, a commitment or the shared option slice. Distinct: SHA-256 of the scenario JSON."
 
 func TestConcurrentUse(t *testing.T) {
 	rec := ev.Get(ID)
